@@ -116,9 +116,9 @@ def run(ctx):
                  '$ + (1, 2)', '{ $ + "a" } <~ 3']
         pc = []
         for k, src in enumerate(PROGS):
-            for st in ('simple', 'basic', 'simpleclone'):
+            for st in ('simple', 'basic', 'simpleclone', 'simpleclone2', 'simpleclone3', 'simpleclone4'):
                 for host in progsuite.HOSTS:
-                    pc.append(['RUN', f'pg{k}{st[0]}{st[-1]}{progsuite.HOSTS.index(host)}', st, vlib.esc(src), '(i 9)', host])
+                    pc.append(['RUN', f'pg{k}{st[0]}{st[-2:]}{progsuite.HOSTS.index(host)}', st, vlib.esc(src), '(i 9)', host])
         pr = vlib.run_impl(pc, 'c08prog', per_case_s=5.0)
         for c in pc:
             pi = progsuite.parse_impl(pr.get(c[1]))
@@ -145,6 +145,23 @@ def run(ctx):
             for i, a_ in enumerate(OKS):
                 for j, e_ in enumerate(ERRS):
                     mc.append(['MULTI', f'he{st[0]}{i}{j}', st, 'd2a1', 'b:' + vlib.esc(a_), 'b:' + vlib.esc(e_), 'r:0', 'r:1', 'r:0', 'r:1', 'r:0'])
+        # ... and under a handler that DECLINES: the same undefined combination executed again on the same object is offered again
+        rc2 = []
+        for st in ('simple', 'basic'):
+            for i, a_ in enumerate(OKS + ERRS):
+                rc2.append(['MULTI', f'hd{st[0]}{i}', st, 'd0a0', 'b:' + vlib.esc(a_), 'r:0', 'r:0', 'r:0'])
+        mr2 = vlib.run_impl(rc2, 'c08multi2', per_case_s=10.0)
+        for c in rc2:
+            r = mr2.get(c[1], 'missing')
+            ctx.distinct.add(('history-decline', c[2], c[4]))
+            runs = [p_ for p_ in r.split(' | ') if _re.match(r'r\d+:', p_)]
+            for k, p_ in enumerate(runs):
+                pi = progsuite.parse_impl(p_.split(':', 1)[1])
+                ncalls = len([x for x in (pi.get('log') or '').split(';') if x.startswith('defer(')])
+                if len(runs) != 3 or pi['kind'] != 'ok' or pi['value'] != 'U' or ncalls != 1:
+                    ctx.fail('oracle', c, impl=r[:600], expect='unit after exactly one offer to the host, in each of the three runs', note=f'run {k + 1} of 3 of {vlib.unesc(c[4])[2:]!r} on one data object under a declining handler: {ncalls} offer(s), outcome {pi.get("value") or pi["kind"]}')
+                    break
+        ctx.evaluations += len(rc2)
         mr = vlib.run_impl(mc, 'c08multi', per_case_s=10.0)
         for c in mc:
             r = mr.get(c[1], 'missing')
